@@ -20,6 +20,7 @@ def run(ctx, R, tier):
     c08.drain(F, R)
     c08.sweep(F, R)
     c08.drops(F, R)
+    c08.reserve(F, R)
     tb = F.body(TRACK + '::process')
     if not R.check(tb is not None, 'B.C15.nolistener', 'anchor', 'Track::process not found'):
         return
